@@ -43,6 +43,8 @@ def slice_pre(sl, w, rw):
         return 1 <= w and w <= MAXW and 1 <= rw and rw <= MAXW
     if sl == 'narrow':     # both symbolic, small page
         return 1 <= w and w <= 24 and 1 <= rw and rw <= w
+    if sl == 'default':    # the package's default configuration, concrete
+        return w == 79 and rw == 71
     if sl.startswith('page:'):      # sub-range of the page slice
         lo, hi = sl[5:].split('-')
         return int(lo) <= w and w <= int(hi) and rw == w
